@@ -167,7 +167,7 @@ macro_rules! arm2 {
             fn $name() {
                 let (od, o1) = (OFF_DEST, OFF_R1);
                 let mut t = mk_thread(
-                    vec![Instr::$variant(enc($dm, od), enc($m1, o1)), Instr::Stop],
+                    vec![norm(Instr::$variant(enc($dm, od), enc($m1, o1))), Instr::Stop],
                     vec![],
                     vec![],
                 );
